@@ -1,7 +1,148 @@
-/-  C19/Driver — line protocol front end (core-only).  Placeholder until the property is built. -/
+/-
+  C19/Driver — line protocol front end (core-only).
+    pos <srchex|-> <idx>                     file.Position(idx) on a file with base 1
+    ppos <srchex|-> <off>                    parser.position at byte offset off (0 ≤ off ≤ len)
+    synerr <off> <srchex>                    a program whose first syntax error is the token at byte offset off
+    trace <limit> <fname|-> <srchex> <levels|-> <pre|-> <raise> <errkind>
+    cls <errkind>                            what `catch (e)` sees for an interpreter-raised error
+    runerr prim <texthex> …                  text of the error returned by Run for an uncaught thrown value
+  reply: <model> <spec> <dev>
+-/
 import OttoVerif.Base.Proto
+import OttoVerif.C19.Spec
 namespace OttoVerif.C19.Driver
+open OttoVerif.Proto OttoVerif.C19
 
-def handle (_ws : List String) : String := "bad-op"
+def src? (t : String) : Option Src := if t = "-" then some [] else bytes? t
+def name? (t : String) : String := if t = "-" then "" else t
+
+def posOut : Option (Nat × Nat) → String
+  | none => "nil"
+  | some (l, c) => toString l ++ ":" ++ toString c
+
+def form? : String → Option Form
+  | "id" => some .ident | "dot" => some .dot | "brk" => some .bracket | "oth" => some .other | _ => none
+
+def pre1? (t : String) : Option Pre :=
+  match t.splitOn ":" with
+  | ["c", f, o] => do let f ← form? f; let o ← int? o; pure (.doneCall f o)
+  | ["e", o] => do let o ← int? o; pure (.directEval o 1)
+  | _ => none
+
+def pres? (t : String) : Option (List Pre) :=
+  if t = "-" then some [] else (t.splitOn "+").mapM pre1?
+
+def via? (t : String) : Option Via :=
+  match t.splitOn ":" with
+  | ["d"] => some .direct | ["n"] => some .construct | ["b"] => some .bound | ["i"] => some .implicit
+  | ["N"] => some .nativeOnly | ["v", n] => some (.viaNative n) | _ => none
+
+def level? (t : String) : Option Level :=
+  match t.splitOn "," with
+  | [v, f, n, o, p] => do
+    let v ← via? v; let f ← form? f; let o ← int? o; let p ← pres? p
+    pure { via := v, form := f, name := name? n, off := o, pre := p }
+  | _ => none
+
+def levels? (t : String) : Option (List Level) :=
+  if t = "-" then some [] else (t.splitOn ";").mapM level?
+
+def raise? (t : String) : Option Raise :=
+  match t.splitOn ":" with
+  | ["at", o] => (int? o).map .withAt
+  | ["nf", f, o] => do let f ← form? f; let o ← int? o; pure (.nonFn f o)
+  | ["sb", f, o] => do let f ← form? f; let o ← int? o; pure (.siteBare f o)
+  | ["bare", o] => (int? o).map .bare
+  | _ => none
+
+def kind? : String → Option ErrKind
+  | "unresolvable" => some .unresolvable | "callNonFn" => some .callNonFn | "newNonFn" => some .newNonFn
+  | "memberUndefined" => some .memberUndefined | "memberNull" => some .memberNull
+  | "arrayLenCtor" => some .arrayLenCtor | "arrayLenSet" => some .arrayLenSet | "radix" => some .radix
+  | "fixedPrecision" => some .fixedPrecision | "expPrecision" => some .expPrecision | "precPrecision" => some .precPrecision
+  | "evalSyntax" => some .evalSyntax | "functionSyntax" => some .functionSyntax
+  | "instanceofNonObj" => some .instanceofNonObj | "inNonObj" => some .inNonObj
+  | "cyclicJSON" => some .cyclicJSON | "uriMalformed" => some .uriMalformed | _ => none
+
+def locOut : Loc → String
+  | .unknown => "unknown"
+  | .native => "native"
+  | .at f l c => (if f = "<anonymous>" then "anon" else f) ++ ":" ++ toString l ++ ":" ++ toString c
+
+def frameOut (f : FrameOut) : String := f.callee ++ "@" ++ locOut f.loc
+def framesOut (fs : List FrameOut) : String := if fs.isEmpty then "none" else ";".intercalate (fs.map frameOut)
+def flag (b : Bool) : String := if b then "m1" else "m0"
+
+def caughtOut (c : Caught) : String := c.name ++ "," ++ "+".intercalate c.instanceOf ++ "," ++ flag c.hasMessage
+
+def join (ds : List String) : String := if ds.isEmpty then "-" else ",".intercalate ds
+
+/-- deviation regions of a trace request: decidable predicates over the request only -/
+def traceDev (src : Src) (sc : Scenario) (k : ErrKind) : String :=
+  join (Spec.traceDevs src sc ++ (if (errTable k).2 then [] else ["msg_empty"]))
+
+def strOut (s : String) : String := "s:" ++ bytesOut (s.toUTF8.toList.map (·.toNat))
+def str? (t : String) : Option String :=
+  if t = "-" then some "" else
+  match bytes? t with
+  | some bs => String.fromUTF8? (ByteArray.mk (bs.map (fun n => UInt8.ofNat n)).toArray)
+  | none => none
+
+/-- `-` = absent, `e` = the empty string, else hex of the string -/
+def optStr? (t : String) : Option (Option String) :=
+  if t = "-" then some none else if t = "e" then some (some "") else (str? t).map some
+
+def reply (m s dev : String) : String := m ++ " " ++ s ++ " " ++ dev
+
+def handle (ws : List String) : String :=
+  match ws with
+  | ["pos", s, i] => match src? s, int? i with
+    | some src, some idx =>
+      reply (posOut (filePosition src 1 idx)) (posOut (Spec.positionAt src (idx - 1)))
+        (if Spec.cleanAt src (idx - 1) then "-" else "position_cr")
+    | _, _ => "bad-op"
+  | ["ppos", s, o] => match src? s, o.toNat? with
+    | some src, some off =>
+      if off ≤ src.length then reply (posOut (some (parserPosition src off))) (posOut (some (Spec.position src off))) "-"
+      else "bad-op"
+    | _, _ => "bad-op"
+  | ["synerr", o, s] => match src? s, o.toNat? with
+    | some src, some off =>
+      if off ≤ src.length then reply (posOut (some (parserPosition src off))) (posOut (some (Spec.position src off))) "-"
+      else "bad-op"
+    | _, _ => "bad-op"
+  | ["trace", lim, fname, s, ls, pre, r, k] =>
+    match int? lim, src? s, levels? ls, pres? pre, raise? r, kind? k, str? fname with
+    | some limit, some src, some levels, some pre, some raise, some kind, some fname =>
+      let sc : Scenario := { levels := levels, pre := pre, raise := raise }
+      let files : List FileEnt := [{ name := fname, src := src }, { name := "", src := [0x31] }]
+      let (mn, mm) := errTable kind
+      let m := mn ++ "|" ++ flag mm ++ "|" ++ framesOut (trace files limit sc)
+      let sp := Spec.errClass kind ++ "|" ++ flag true ++ "|" ++ framesOut (Spec.trace fname src limit sc)
+      reply m sp (traceDev src sc kind)
+    | _, _, _, _, _, _, _ => "bad-op"
+  | ["cls", k, _variant] => match kind? k with
+    | some kind => reply (caughtOut (caught kind)) (caughtOut (Spec.caught kind)) (if (errTable kind).2 then "-" else "msg_empty")
+    | none => "bad-op"
+  | ["runerr", "prim", t, _lit] => match optStr? t with
+    | some (some t) => reply (strOut (runErrorText (.prim t))) (strOut (Spec.runErrorText (.prim t))) "-"
+    | _ => "bad-op"
+  | ["runerr", "obj", t] => match optStr? t with
+    | some (some t) => reply (strOut (runErrorText (.obj t))) (strOut (Spec.runErrorText (.obj t))) "-"
+    | _ => "bad-op"
+  | ["runerr", "err", ctor, msg, setName, setMsg] =>
+    -- `new <ctor>(msg)` (msg `-` = no argument), then optional assignments to e.name / e.message, then `throw e`
+    match optStr? msg, optStr? setName, optStr? setMsg with
+    | some msg, some sn, some sm =>
+      let capMsg := msg.getD ""
+      -- current properties: `name` is inherited from <ctor>.prototype, `message` is own if msg was given,
+      -- else inherited from Error.prototype (""), unless assigned
+      let curName := some (sn.getD ctor)
+      let curMsg := some (sm.getD capMsg)
+      let th := Thrown.errObj ctor capMsg curName curMsg
+      let dev := if Spec.staleText th then "run_text_stale" else "-"
+      reply (strOut (runErrorText th)) (strOut (Spec.runErrorText th)) dev
+    | _, _, _ => "bad-op"
+  | _ => "bad-op"
 
 end OttoVerif.C19.Driver
